@@ -176,7 +176,7 @@ def generate(rng, tier, index):
             sc["expect"] = {"kind": "scan"}
     elif construction == "system-config":
         sc["files"] = workload.files_to_spec({"a.md": b"# T\n"})
-        how = rng.choice(["bad-config-path", "unparsable-json", "corrupt-json", "corrupt-yaml", "corrupt-toml", "bad-plugin-path", "strict-set", "bad-scheme-value", "config-is-dir"])
+        how = rng.choice(["bad-config-path", "unparsable-json", "corrupt-json", "corrupt-yaml", "corrupt-toml", "bad-plugin-path", "strict-set", "bad-scheme-value", "config-is-dir", "corrupt-default+explicit", "corrupt-default+explicit"])
         command = rng.choice(["scan", "fix"])
         tail = [command, "a.md"]
         if sc["scheme_source"] not in ("absent", "flag"):
@@ -200,6 +200,19 @@ def generate(rng, tier, index):
         elif how == "corrupt-toml":
             sc["extra"]["pyproject.toml"] = {"b64": b64(b'[tool.pymarkdown\nmode.return_code_scheme = "minimal\n')}
             sc["argv_tail"] = tail
+            sc["corrupt"] = True
+        elif how == "corrupt-default+explicit":
+            # a broken default configuration file is an error also when a valid file is
+            # named explicitly (both layers are read)
+            broken_name = rng.choice([".pymarkdown", ".pymarkdown.yaml", ".pymarkdown.yml"])
+            broken = b"{ not json" if broken_name == ".pymarkdown" else b"mode:\n  return_code_scheme: [unclosed\n\tbad: tab\n"
+            sc["extra"][broken_name] = {"b64": b64(broken)}
+            explicit = rng.choice([".pymarkdown.ci.json", ".pymarkdown-strict.json", "cfg/ok.json", ".pymarkdown.yml" if broken_name != ".pymarkdown.yml" else "cfg/ok.json"])
+            if explicit.endswith(".yml"):
+                sc["extra"][explicit] = {"b64": b64(b"plugins:\n  md013:\n    line_length: 100\n")}
+            else:
+                sc["extra"][explicit] = {"b64": b64(json.dumps({"plugins": {"md013": {"line_length": 100}}}).encode())}
+            sc["argv_tail"] = ["--config", explicit] + tail
             sc["corrupt"] = True
         elif how == "bad-plugin-path":
             sc["argv_tail"] = ["--add-plugin", "nosuch_plugin.py"] + tail
